@@ -65,9 +65,37 @@ def main(argv=None):
     timeout_ms = 180000 if args.tier == 'thorough' else 45000
     jobs = [(prop, i, second, timeout_ms) for i, _ in units]
     if len(jobs) > 1 and args.jobs > 1:
+        # one future per unit; a worker that dies (solver crash) breaks the pool instead of hanging it: the units
+        # without a result are then re-run one by one in fresh processes, and reported as checker defects if that
+        # fails again (never as a verdict on the property)
+        from concurrent.futures import ProcessPoolExecutor
+        from concurrent.futures.process import BrokenProcessPool
         ctx = mp.get_context('fork')
-        with ctx.Pool(min(args.jobs, len(jobs))) as pool:
-            results = pool.map(_run_one, jobs, chunksize=1)
+        results = [None] * len(jobs)
+        for attempt, width in ((0, min(args.jobs, len(jobs))), (1, 1), (2, 1)):
+            todo = [k for k, r in enumerate(results) if r is None]
+            if not todo:
+                break
+            if width == 1:
+                for k in todo:
+                    with ProcessPoolExecutor(1, mp_context=ctx) as ex:
+                        try:
+                            results[k] = ex.submit(_run_one, jobs[k]).result()
+                        except BrokenProcessPool:
+                            pass
+                continue
+            with ProcessPoolExecutor(width, mp_context=ctx) as ex:
+                futs = {k: ex.submit(_run_one, jobs[k]) for k in todo}
+                for k, f in futs.items():
+                    try:
+                        results[k] = f.result()
+                    except BrokenProcessPool:
+                        pass
+        for k, r in enumerate(results):
+            if r is None:
+                u = units[k][1]
+                results[k] = {'unit': u.name, 'target': u.target(), 'status': 'defect', 'verdicts': [], 'info': {},
+                              'error': 'worker process died three times (solver crash)', 'seconds': 0}
     else:
         results = [_run_one(j) for j in jobs]
     bounded = []
